@@ -7,7 +7,7 @@ import json
 import os
 import types
 
-from .. import envfix, framework as fw
+from .. import build, envfix, framework as fw, translator
 
 ALPHABET = ["/", "\\", "a", "A", "b", ".", " ", ":", "\u00e9", "\u00c9"]
 EXTRA = ["\u4e2d", "\u00df", "z", "Z", "-", "_", "c", "C", "1"]   # used by the long random stream
@@ -358,14 +358,42 @@ def random_path(rng, p):
     return s[:60]
 
 
+def regenerate(ctx, stats):
+    """second tie: rewrite coq/theories/GenPath.v from the current source of the four helpers (fail-closed)"""
+    path = os.path.join(build.THEORIES, "GenPath.v")
+    cls = type(make_prov(True, False))
+    try:
+        text = translator.generate(cls)
+    except translator.Untranslatable as e:
+        stats["translator"] = "untranslatable"
+        ctx.violation("the source of a path helper left the translator's whitelist (%s); GenPath.v is stale, so the "
+                      "equalities C13_gen_* say nothing about the current source" % e,
+                      dict(kind="translator", error=str(e)), no_input=True,
+                      theorem="second tie: C13_gen_nps/C13_gen_split/C13_gen_is_subpath/C13_gen_replace_path")
+        return
+    old = open(path, encoding="utf-8").read() if os.path.exists(path) else None
+    if old != text:
+        with open(path, "w", encoding="utf-8") as f:
+            f.write(text)
+        stats["translator"] = "GenPath.v regenerated (source differs from the committed translation)"
+    else:
+        stats["translator"] = "GenPath.v unchanged"
+    stats["translated_functions"] = [f[0] for f in translator.FUNCS]
+
+
 def run(ctx):
     envfix.install()
+    pre = {}
+    regenerate(ctx, pre)
     g = ctx.coq_gate("PropC13")
     LAW_HITS.clear()
     dist = fw.Distinct()
     stats = dict(unary=0, binary=0, ternary=0, translate=0, long=0, laws_checked=0, fold_alphabet_ok=0)
+    stats.update(pre)
     samples = []
-    if g is not None:
+    # when the proofs no longer check (e.g. the regenerated definitions changed) the search for a failing
+    # input still runs, against the last model executable that was built
+    if g is not None or os.path.exists(os.path.join(build.BIN, "path")):
         model = fw.ModelProc("path")
         quick = ctx.quick
         U, B, T = (4, 2, 1) if quick else (5, 3, 2)
@@ -575,6 +603,9 @@ def run(ctx):
           "the executable model's fold_std is proved to satisfy fold_ok (fold_std_ok) and compared with str.lower() on the stream alphabet",
           "extraction: ExtrOcamlBasic only (Extract Inductive bool/option/unit/prod/list/sumbool/sumor); OCaml 4.13.1; coq/ocaml/driver.ml",
           "correspondence harness harness/checks/c13.py (generators, canonicalisation); CPython str semantics",
+          "second tie: harness/translator.py (fail-closed ast -> Gallina for normalize_path_separators, split, is_subpath, replace_path) and "
+          "the Gallina readings of CPython primitives in GenPrims.v/Str.v (slices, len, rfind, replace, rstrip, startswith); cross-checked by "
+          "the proofs gen_* = hand model together with the correspondence run of the hand model",
           "modelled, not verified: str.lower() beyond per-character folds (U+0130, context-dependent final sigma), Unicode normalisation forms; "
           "nested list arguments of join(); join() of more than the argument shapes used by the theorems is covered by pc_join only up to components"]
     return ctx.finish(tb)
